@@ -74,6 +74,20 @@ class CallMixin:
             return [(st, self.eval_old(e.args[0], st))]
         if self.spec_mode and isinstance(e.func, ast.Name) and e.func.id in ("forall", "exists", "implies"):
             return [(st, self.eval_quant(e, st))]
+        if (isinstance(e.func, ast.Name) and e.func.id == "sorted" and len(e.args) == 1 and len(e.keywords) == 1 and e.keywords[0].arg == "key"
+                and isinstance(e.keywords[0].value, ast.Attribute) and e.keywords[0].value.attr == "__getitem__"
+                and ast.unparse(e.keywords[0].value.value) == ast.unparse(e.args[0]) and "sorted" not in st.env):
+            # sorted(d, key=d.__getitem__): the keys of d ordered by their values — for the priority table (kept in that order from the live import)
+            res = []
+            for s2, v in self.ev(e.args[0], st):
+                if s2.status == "run" and v.k == "priotable":
+                    items = [t.xs[0] for t in v.xs.xs[1]]
+                    res.append((s2, V("iter", xs=("static", items), cls="list")))
+                else:
+                    res = None
+                    break
+            if res is not None:
+                return res
         out = []
         starred = [a for a in e.args if isinstance(a, ast.Starred)]
         dstar = [k for k in e.keywords if k.arg is None]
